@@ -2,10 +2,11 @@
    Only ExtrOcamlBasic (bool, option, list, prod, unit, sumbool -> native OCaml types);
    N, positive, nat, Z stay as extracted inductive types. No Extract Constant of our own. *)
 From Coq Require Import Extraction ExtrOcamlBasic.
-From BddVerif Require Import Model.Bdd Model.Apply.
+From BddVerif Require Import Model.Bdd Model.Apply Model.Ops.
 Extraction Language OCaml.
 Extraction "../driver/model.ml"
   Bdd.mkNode Bdd.get Bdd.size Bdd.nvars Bdd.eval Bdd.val_of_list Bdd.wfb Bdd.reducedb Bdd.layoutb Bdd.canonicalb
   Bdd.mk_true Bdd.mk_false
   Apply.fused_binary_flip_op Apply.fused_binary_flip_op_with_limit Apply.check_fused_binary_flip_op
+  Ops.bdd_not Ops.fused_ternary_flip_op Ops.ternary_op Ops.if_then_else Ops.op3_of_table
   Apply.op_of_table Apply.op_and Apply.op_or Apply.op_imp Apply.op_iff Apply.op_xor Apply.op_and_not.
